@@ -25,6 +25,9 @@ func c12Gen(r *rand.Rand, tier string) []spec.Case {
 			add(spec.C12Case{Proto: "grpcmux", Path: "main", Launch: la})
 			add(spec.C12Case{Proto: "grpcmux", Path: "main-race", Launch: la})
 		}
+		for _, pr := range []string{"netrpc", "grpc"} {
+			add(spec.C12Case{Proto: pr, Path: "main-tlsprovider", Launch: "cmd"})
+		}
 		add(spec.C12Case{Proto: "grpc", Path: "plugin-brokered", Launch: "runner"})
 		add(spec.C12Case{Proto: "grpc", Path: "host-brokered", Launch: "runner"})
 		for _, pr := range []string{"grpcmux", "grpc"} {
@@ -130,6 +133,22 @@ func c12Judge(c spec.Case, evs []spec.Event, d *Death) CaseResult {
 		}
 		return res
 	}
+	if p.Path == "main-tlsprovider" {
+		// A plugin with its own TLSProvider does not take part in AutoMTLS (it does not authenticate the host).
+		// Either the host gets no working session out of it, or, if it does, the plugin must refuse everybody else.
+		res.Counters["tlsprovider_plugin_cases"]++
+		if !o.PositiveOK {
+			res.Counters["tlsprovider_plugin_not_usable_by_automtls_host"]++
+			return res
+		}
+		for _, a := range o.Attempts {
+			res.Counters["intruder_attempts"]++
+			if a.Answered {
+				viol("automtls-session-with-unauthenticating-plugin:"+a.Cred, fmt.Sprintf("the host asked for AutoMTLS and got a working session (%s) with a plugin that serves with its own TLSProvider, and that plugin also answers an intruder with credential class %q on the same listener: the session the host believes to be mutually authenticated is not", o.Positive, a.Cred))
+			}
+		}
+		return res
+	}
 	if !o.PositiveOK {
 		return CaseResult{Verdict: "inconclusive", Inconcl: "positive control failed (the legitimate peer could not use the listener): " + o.Positive, Class: res.Class}
 	}
@@ -157,7 +176,7 @@ func init() {
 				r.Inconcl = append(r.Inconcl, fmt.Sprintf("too little observed: %v", r.Counters))
 			}
 		},
-		Rule:        "cases = connection path (main listener of net/rpc, gRPC, gRPC+mux incl. an intruder that takes the multiplexed listener's single session before the host; plugin-side and host-side brokered gRPC listeners found by listing the case's private socket directories, also with an address-translating runner; and, for gRPC with and without multiplexing, brokered listeners of both sides reached the broker's own way -- DialWithOptions on the legitimate session, knock included -- with only the transport credentials replaced by the intruder's) x intruder credential class (plaintext, TLS without client certificate, TLS with a fresh self-signed certificate of another name, TLS with a certificate of identical subject/SAN but another key, the latter also verifying against its own CA), fresh keys per case, each attempt speaking the real protocol (yamux+net/rpc Control.Ping, gRPC health check, PingPong) and each case carrying a positive control by the legitimate peer; plus plugins started directly with PLUGIN_CLIENT_CERT in unusual shapes (certificate followed / preceded by a PEM block that is not a certificate, by a key block, by text, two certificates, no certificate at all) attacked on their main listener by the same intruder classes; plus impostor plugins that announce certificate A and serve certificate B, plaintext, or B with A appended to the chain (A with and without the name the host dials) with the real protocol. Class = protocol|path|launch",
+		Rule:        "cases = connection path (main listener of net/rpc, gRPC, gRPC+mux incl. an intruder that takes the multiplexed listener's single session before the host; plugin-side and host-side brokered gRPC listeners found by listing the case's private socket directories, also with an address-translating runner; and, for gRPC with and without multiplexing, brokered listeners of both sides reached the broker's own way -- DialWithOptions on the legitimate session, knock included -- with only the transport credentials replaced by the intruder's) x intruder credential class (plaintext, TLS without client certificate, TLS with a fresh self-signed certificate of another name, TLS with a certificate of identical subject/SAN but another key, the latter also verifying against its own CA), fresh keys per case, each attempt speaking the real protocol (yamux+net/rpc Control.Ping, gRPC health check, PingPong) and each case carrying a positive control by the legitimate peer; plus plugins started directly with PLUGIN_CLIENT_CERT in unusual shapes (certificate followed / preceded by a PEM block that is not a certificate, by a key block, by text, two certificates, no certificate at all) attacked on their main listener by the same intruder classes; plus plugins that serve with a TLSProvider of their own (no client authentication) launched by an AutoMTLS host: either the host gets no working session, or intruders must be refused on that listener; plus impostor plugins that announce certificate A and serve certificate B, plaintext, or B with A appended to the chain (A with and without the name the host dials) with the real protocol. Class = protocol|path|launch",
 		Assumptions: []string{"a case without a successful positive control is inconclusive, never 'held'", "samples credential classes; says nothing about TLS itself"},
 	})
 }
